@@ -23,7 +23,7 @@ import (
 
 var (
 	asciiRunes = []rune("abcdefghijklmnopqrstuvwxyzABCXYZ0123456789 _-.:;,!?*()[]{}<>=@%&|~^'\"\\")
-	wideRunes  = []rune{0x00A0, 0x00E9, 0x07FF, 0x0800, 0x4E2D, 0xD7FF, 0xE000, 0xFFFC, 0x10000, 0x1F600, 0x10FFFD, 0xFFFD}
+	wideRunes  = []rune{0x00A0, 0x00E9, 0x07FF, 0x0800, 0x4E2D, 0xD7FF, 0xE000, 0xFFFC, 0x10000, 0x1F600, 0x10FFFD}
 )
 
 var versions = []mqttx.Version{mqttx.V31, mqttx.V311, mqttx.V5}
@@ -39,7 +39,9 @@ func (g *gen) chance(pct int) bool { return g.rng.Intn(100) < pct }
 func (g *gen) runeOf(exclude string) rune {
 	for {
 		var c rune
-		if g.chance(85) {
+		if g.rng.Intn(600) == 0 {
+			c = 0xFFFD // REPLACEMENT CHARACTER: an ordinary, allowed code point
+		} else if g.chance(85) {
 			c = asciiRunes[g.rng.Intn(len(asciiRunes))]
 		} else {
 			c = wideRunes[g.rng.Intn(len(wideRunes))]
